@@ -111,7 +111,9 @@ def run(ctx):
             else:
                 cos = float(np.dot(g, g1) / (ng * nf + 1e-300))
                 ratio = ng / (nf + 1e-300)
-                if cos < 1 - 1e-4 or abs(ratio - 1) > 2e-3:
+                # mahalanobis rounds the difference vector to float32 inside the kernel: ~1e-3 relative noise in the differences
+                rtol = 1e-2 if cname == "mahalanobis" else 2e-3
+                if cos < 1 - (1e-3 if cname == "mahalanobis" else 1e-4) or abs(ratio - 1) > rtol:
                     ctx.violation("gradient", f"{name}: returned gradient {np.round(g, 5).tolist()} vs finite differences of the returned "
                                               f"distance {np.round(g1, 5).tolist()} (cosine {cos:.6f}, magnitude ratio {ratio:.5f})", case, key=key)
             if cname in MODELLED:
